@@ -6,7 +6,7 @@
    algorithm, .changes file lines).  A changed or dropped tag makes the corresponding lemma fail to compile. *)
 From Coq Require Import List Ascii String Bool Arith NArith ZArith Lia.
 Require Import SchemaDefs Schema_gen.
-Require GS L10 L12 ACC C9G CX.
+Require GS R2 L10 L12 L13 ACC C9G CX.
 Import ListNotations.
 
 Lemma C10_dsc_schema_ok : schema_ok dsc_schema dsc_table = true.
@@ -48,6 +48,15 @@ Theorem C10_lines_field : forall (dl : ascii) (st : ascii -> bool) w1 es w2, L10
   Forall (L12.line_ok dl st) es -> L10.decode_list dl st (w1 ++ GS.join [dl] es ++ w2) = es.
 Proof. exact L12.C10_lines_field. Qed.
 Print Assumptions C10_lines_field.
+
+(* composition with the reader: a comma-separated list FOLDED over continuation lines ("Binary: a,\n b,\n c").
+   C07_field_value says the reader's value for such a field is read_conts (first line) (continuation lines); the
+   list decoder applied to that value gives exactly the elements *)
+Theorem C10_folded_comma_list : forall e0 r, r <> [] -> e0 <> [] -> GS.has_suffix [GS.nl] (e0 ++ [L13.comma]) = false ->
+  Forall (L10.elt_ok L13.comma L13.strip4) (e0 :: r) -> Forall L13.line_elt r ->
+  L10.decode_list L13.comma L13.strip4 (R2.read_conts (e0 ++ [L13.comma]) (L13.tail_lines r)) = e0 :: r.
+Proof. exact L13.C10_folded_comma_list. Qed.
+Print Assumptions C10_folded_comma_list.
 
 (* accessors *)
 Theorem C10_maintainers : forall m ups, hd [] (ACC.maintainers m ups) = m /\ tl (ACC.maintainers m ups) = ups /\
